@@ -71,7 +71,7 @@ def rand_ace(rnd, plat, groups=True):
             a["dport"] = rand_port(rnd, plat)
     if proto == 6 and rnd.random() < 0.35:
         a["flags"] = rnd.sample(FLAGS, rnd.randint(1, 3))
-    if rnd.random() < 0.3:
+    if rnd.random() < (0.6 if a["flags"] else 0.3):      # flags and log keywords together: their order is varied
         a["logs"] = [rnd.choice(["log", "log-input"])]
     return a
 
@@ -182,6 +182,8 @@ def spell_ace(rnd, plat, a, proto_names=None):
     if proto_names and a["proto"] in proto_names and rnd.random() < 0.7:
         proto_txt = proto_names[a["proto"]]
     opts = list(a["flags"]) + list(a["logs"])
+    if len(opts) > 1 and rnd.random() < 0.5:
+        rnd.shuffle(opts)                     # a log keyword may stand before a flag
     parts = ["permit" if a["permit"] else "deny", proto_txt, ts, port_text(a["sport"]), td, port_text(a["dport"])] + opts
     text = " ".join(x for x in parts if x)
     sp = coq_list(coq_str(t) for t in port_text(a["sport"]).split())
